@@ -729,3 +729,163 @@ package core
 //@       (tCurrent(out[cnt(in, j) + fnd(i)]) > 0 && tCurrent(out[cnt(in, j) + fnd(i)]) < alloc && cast(tCurrent(out[cnt(in, j) + fnd(i)]), "*gdbi.DataElement").ID == l.ids[i])
 //@   ensures lelems: forall j, i :: 0 <= j && j < len(in) && 0 <= i && i < elistlen(l.db) && !tSignal(in[j]) && len(l.ids) == 0 ==>
 //@       (tCurrent(out[cnt(in, j) + i]) > 0 && tCurrent(out[cnt(in, j) + i]) < alloc && cast(tCurrent(out[cnt(in, j) + i]), "*gdbi.DataElement").ID == elistid(l.db, i))
+
+// ---- C01/C06: adjacency steps, first half (requests) -------------------------------
+// The request side of out()/in() from an edge: one lookup per input traveler, in order,
+// carrying the traveler as Ref; a signal or a traveler without a current element (the
+// "null" rows of outENull/inENull) asks for no id, every other traveler for the To
+// (resp. From) endpoint of its current edge. The request channel is closed at the end.
+//@ func (*LookupEdgeAdjOut).Process$1
+//@   property C01 C06
+//@   option prelude=trav
+//@   option load=gdbi
+//@   nopanic
+//@   requires fresh: rd(in) == 0 && wr(queryChan) == 0 && !closed(queryChan) && in != queryChan && queryChan != nil && in != nil
+//@   requires items: forall j :: 0 <= j && j < len(in) ==> in[j] != nil
+//@   loop 1 invariant pos: 0 <= rd(in) && rd(in) <= len(in) && !closed(queryChan) && wr(queryChan) == rd(in)
+//@   loop 1 invariant reqs: forall j :: 0 <= j && j < rd(in) ==> queryChan[j].Ref == in[j] &&
+//@       queryChan[j].ID == ite(tSignal(in[j]) || tCurrent(in[j]) == 0, "", cast(tCurrent(in[j]), "*gdbi.DataElement").To)
+//@   ensures closed: closed(queryChan)
+//@   ensures drained: rd(in) == len(in) && wr(queryChan) == len(in)
+//@   ensures reqs: forall j :: 0 <= j && j < len(in) ==> queryChan[j].Ref == in[j] &&
+//@       queryChan[j].ID == ite(tSignal(in[j]) || tCurrent(in[j]) == 0, "", cast(tCurrent(in[j]), "*gdbi.DataElement").To)
+//@ func (*LookupEdgeAdjIn).Process$1
+//@   property C01 C06
+//@   option prelude=trav
+//@   option load=gdbi
+//@   nopanic
+//@   requires fresh: rd(in) == 0 && wr(queryChan) == 0 && !closed(queryChan) && in != queryChan && queryChan != nil && in != nil
+//@   requires items: forall j :: 0 <= j && j < len(in) ==> in[j] != nil
+//@   loop 1 invariant pos: 0 <= rd(in) && rd(in) <= len(in) && !closed(queryChan) && wr(queryChan) == rd(in)
+//@   loop 1 invariant reqs: forall j :: 0 <= j && j < rd(in) ==> queryChan[j].Ref == in[j] &&
+//@       queryChan[j].ID == ite(tSignal(in[j]) || tCurrent(in[j]) == 0, "", cast(tCurrent(in[j]), "*gdbi.DataElement").From)
+//@   ensures closed: closed(queryChan)
+//@   ensures drained: rd(in) == len(in) && wr(queryChan) == len(in)
+//@   ensures reqs: forall j :: 0 <= j && j < len(in) ==> queryChan[j].Ref == in[j] &&
+//@       queryChan[j].ID == ite(tSignal(in[j]) || tCurrent(in[j]) == 0, "", cast(tCurrent(in[j]), "*gdbi.DataElement").From)
+
+// The request side of the steps that start from a vertex: the id asked for is the id of
+// the traveler's current element (none for a signal or a traveler without one).
+//@ func (*LookupVertexAdjOut).Process$1
+//@   property C01 C06
+//@   option prelude=trav
+//@   option load=gdbi
+//@   nopanic
+//@   requires fresh: rd(in) == 0 && wr(queryChan) == 0 && !closed(queryChan) && in != queryChan && queryChan != nil && in != nil
+//@   requires items: forall j :: 0 <= j && j < len(in) ==> in[j] != nil
+//@   loop 1 invariant pos: 0 <= rd(in) && rd(in) <= len(in) && !closed(queryChan) && wr(queryChan) == rd(in)
+//@   loop 1 invariant reqs: forall j :: 0 <= j && j < rd(in) ==> queryChan[j].Ref == in[j] &&
+//@       queryChan[j].ID == ite(tSignal(in[j]) || tCurrent(in[j]) == 0, "", cast(tCurrent(in[j]), "*gdbi.DataElement").ID)
+//@   ensures closed: closed(queryChan)
+//@   ensures drained: rd(in) == len(in) && wr(queryChan) == len(in)
+//@   ensures reqs: forall j :: 0 <= j && j < len(in) ==> queryChan[j].Ref == in[j] &&
+//@       queryChan[j].ID == ite(tSignal(in[j]) || tCurrent(in[j]) == 0, "", cast(tCurrent(in[j]), "*gdbi.DataElement").ID)
+//@ func (*LookupVertexAdjIn).Process$1
+//@   property C01 C06
+//@   option prelude=trav
+//@   option load=gdbi
+//@   nopanic
+//@   requires fresh: rd(in) == 0 && wr(queryChan) == 0 && !closed(queryChan) && in != queryChan && queryChan != nil && in != nil
+//@   requires items: forall j :: 0 <= j && j < len(in) ==> in[j] != nil
+//@   loop 1 invariant pos: 0 <= rd(in) && rd(in) <= len(in) && !closed(queryChan) && wr(queryChan) == rd(in)
+//@   loop 1 invariant reqs: forall j :: 0 <= j && j < rd(in) ==> queryChan[j].Ref == in[j] &&
+//@       queryChan[j].ID == ite(tSignal(in[j]) || tCurrent(in[j]) == 0, "", cast(tCurrent(in[j]), "*gdbi.DataElement").ID)
+//@   ensures closed: closed(queryChan)
+//@   ensures drained: rd(in) == len(in) && wr(queryChan) == len(in)
+//@   ensures reqs: forall j :: 0 <= j && j < len(in) ==> queryChan[j].Ref == in[j] &&
+//@       queryChan[j].ID == ite(tSignal(in[j]) || tCurrent(in[j]) == 0, "", cast(tCurrent(in[j]), "*gdbi.DataElement").ID)
+//@ func (*InE).Process$1
+//@   property C01 C06
+//@   option prelude=trav
+//@   option load=gdbi
+//@   nopanic
+//@   requires fresh: rd(in) == 0 && wr(queryChan) == 0 && !closed(queryChan) && in != queryChan && queryChan != nil && in != nil
+//@   requires items: forall j :: 0 <= j && j < len(in) ==> in[j] != nil
+//@   loop 1 invariant pos: 0 <= rd(in) && rd(in) <= len(in) && !closed(queryChan) && wr(queryChan) == rd(in)
+//@   loop 1 invariant reqs: forall j :: 0 <= j && j < rd(in) ==> queryChan[j].Ref == in[j] &&
+//@       queryChan[j].ID == ite(tSignal(in[j]) || tCurrent(in[j]) == 0, "", cast(tCurrent(in[j]), "*gdbi.DataElement").ID)
+//@   ensures closed: closed(queryChan)
+//@   ensures drained: rd(in) == len(in) && wr(queryChan) == len(in)
+//@   ensures reqs: forall j :: 0 <= j && j < len(in) ==> queryChan[j].Ref == in[j] &&
+//@       queryChan[j].ID == ite(tSignal(in[j]) || tCurrent(in[j]) == 0, "", cast(tCurrent(in[j]), "*gdbi.DataElement").ID)
+//@ func (*OutE).Process$1
+//@   property C01 C06
+//@   option prelude=trav
+//@   option load=gdbi
+//@   nopanic
+//@   requires fresh: rd(in) == 0 && wr(queryChan) == 0 && !closed(queryChan) && in != queryChan && queryChan != nil && in != nil
+//@   requires items: forall j :: 0 <= j && j < len(in) ==> in[j] != nil
+//@   loop 1 invariant pos: 0 <= rd(in) && rd(in) <= len(in) && !closed(queryChan) && wr(queryChan) == rd(in)
+//@   loop 1 invariant reqs: forall j :: 0 <= j && j < rd(in) ==> queryChan[j].Ref == in[j] &&
+//@       queryChan[j].ID == ite(tSignal(in[j]) || tCurrent(in[j]) == 0, "", cast(tCurrent(in[j]), "*gdbi.DataElement").ID)
+//@   ensures closed: closed(queryChan)
+//@   ensures drained: rd(in) == len(in) && wr(queryChan) == len(in)
+//@   ensures reqs: forall j :: 0 <= j && j < len(in) ==> queryChan[j].Ref == in[j] &&
+//@       queryChan[j].ID == ite(tSignal(in[j]) || tCurrent(in[j]) == 0, "", cast(tCurrent(in[j]), "*gdbi.DataElement").ID)
+
+// ---- C01/C06: adjacency steps, second half (answers) --------------------------------
+// One output per answer of the graph, in the order of the answers: the answer to a signal
+// is that signal; any other answer is the requesting traveler moved (copy-on-step,
+// AddCurrent) to the element the graph returned (none for the "null" answers of the
+// *Null steps). outE() has no signal branch: a signal comes out as a copy that is still a
+// signal. Which answers the graph gives is the driver's contract (assumed, externs.gvc).
+//@ func (*LookupVertexAdjOut).Process$2
+//@   property C01 C06
+//@   option prelude=trav
+//@   option load=gdbi
+//@   nopanic
+//@   requires fresh: wr(out) == 0 && !closed(out) && out != nil && queryChan != out && l != nil && l.db != nil
+//@   loop 1 invariant pos: rangechan != nil && rangechan != out && 0 <= rd(rangechan) && rd(rangechan) <= len(rangechan) && !closed(out) && wr(out) == rd(rangechan)
+//@   loop 1 invariant refs: forall k :: 0 <= k && k < len(rangechan) ==> rangechan[k].Ref != nil
+//@   loop 1 invariant elems: forall k :: 0 <= k && k < rd(rangechan) ==> (tSignal(rangechan[k].Ref) ==> out[k] == rangechan[k].Ref) && (!tSignal(rangechan[k].Ref) ==> tCurrent(out[k]) == rangechan[k].Vertex && !tSignal(out[k]))
+//@   ensures closed: closed(out)
+//@ func (*LookupVertexAdjIn).Process$2
+//@   property C01 C06
+//@   option prelude=trav
+//@   option load=gdbi
+//@   nopanic
+//@   requires fresh: wr(out) == 0 && !closed(out) && out != nil && queryChan != out && l != nil && l.db != nil
+//@   loop 1 invariant pos: rangechan != nil && rangechan != out && 0 <= rd(rangechan) && rd(rangechan) <= len(rangechan) && !closed(out) && wr(out) == rd(rangechan)
+//@   loop 1 invariant refs: forall k :: 0 <= k && k < len(rangechan) ==> rangechan[k].Ref != nil
+//@   loop 1 invariant elems: forall k :: 0 <= k && k < rd(rangechan) ==> (tSignal(rangechan[k].Ref) ==> out[k] == rangechan[k].Ref) && (!tSignal(rangechan[k].Ref) ==> tCurrent(out[k]) == rangechan[k].Vertex && !tSignal(out[k]))
+//@   ensures closed: closed(out)
+//@ func (*LookupEdgeAdjOut).Process$2
+//@   property C01 C06
+//@   option prelude=trav
+//@   option load=gdbi
+//@   nopanic
+//@   requires fresh: wr(out) == 0 && !closed(out) && out != nil && queryChan != out && l != nil && l.db != nil
+//@   loop 1 invariant pos: rangechan != nil && rangechan != out && 0 <= rd(rangechan) && rd(rangechan) <= len(rangechan) && !closed(out) && wr(out) == rd(rangechan)
+//@   loop 1 invariant refs: forall k :: 0 <= k && k < len(rangechan) ==> rangechan[k].Ref != nil
+//@   loop 1 invariant elems: forall k :: 0 <= k && k < rd(rangechan) ==> (tSignal(rangechan[k].Ref) ==> out[k] == rangechan[k].Ref) && (!tSignal(rangechan[k].Ref) ==> tCurrent(out[k]) == rangechan[k].Vertex && !tSignal(out[k]))
+//@   ensures closed: closed(out)
+//@ func (*LookupEdgeAdjIn).Process$2
+//@   property C01 C06
+//@   option prelude=trav
+//@   option load=gdbi
+//@   nopanic
+//@   requires fresh: wr(out) == 0 && !closed(out) && out != nil && queryChan != out && l != nil && l.db != nil
+//@   loop 1 invariant pos: rangechan != nil && rangechan != out && 0 <= rd(rangechan) && rd(rangechan) <= len(rangechan) && !closed(out) && wr(out) == rd(rangechan)
+//@   loop 1 invariant refs: forall k :: 0 <= k && k < len(rangechan) ==> rangechan[k].Ref != nil
+//@   loop 1 invariant elems: forall k :: 0 <= k && k < rd(rangechan) ==> (tSignal(rangechan[k].Ref) ==> out[k] == rangechan[k].Ref) && (!tSignal(rangechan[k].Ref) ==> tCurrent(out[k]) == rangechan[k].Vertex && !tSignal(out[k]))
+//@   ensures closed: closed(out)
+//@ func (*InE).Process$2
+//@   property C01 C06
+//@   option prelude=trav
+//@   option load=gdbi
+//@   nopanic
+//@   requires fresh: wr(out) == 0 && !closed(out) && out != nil && queryChan != out && l != nil && l.db != nil
+//@   loop 1 invariant pos: rangechan != nil && rangechan != out && 0 <= rd(rangechan) && rd(rangechan) <= len(rangechan) && !closed(out) && wr(out) == rd(rangechan)
+//@   loop 1 invariant refs: forall k :: 0 <= k && k < len(rangechan) ==> rangechan[k].Ref != nil
+//@   loop 1 invariant elems: forall k :: 0 <= k && k < rd(rangechan) ==> (tSignal(rangechan[k].Ref) ==> out[k] == rangechan[k].Ref) && (!tSignal(rangechan[k].Ref) ==> tCurrent(out[k]) == rangechan[k].Edge && !tSignal(out[k]))
+//@   ensures closed: closed(out)
+//@ func (*OutE).Process$2
+//@   property C01 C06
+//@   option prelude=trav
+//@   option load=gdbi
+//@   nopanic
+//@   requires fresh: wr(out) == 0 && !closed(out) && out != nil && queryChan != out && l != nil && l.db != nil
+//@   loop 1 invariant pos: rangechan != nil && rangechan != out && 0 <= rd(rangechan) && rd(rangechan) <= len(rangechan) && !closed(out) && wr(out) == rd(rangechan)
+//@   loop 1 invariant refs: forall k :: 0 <= k && k < len(rangechan) ==> rangechan[k].Ref != nil
+//@   loop 1 invariant elems: forall k :: 0 <= k && k < rd(rangechan) ==> tCurrent(out[k]) == rangechan[k].Edge && (tSignal(out[k]) <==> tSignal(rangechan[k].Ref))
+//@   ensures closed: closed(out)
